@@ -715,8 +715,8 @@ def rewrite_body(body, ctx, cname):
             # new T [ n ]
             j = sig(toks, i, 1)
             tyw = []
-            while j is not None and toks[j].kind == 'id':
-                tyw.append(toks[j].text)
+            while j is not None and (toks[j].kind == 'id' or (toks[j].text == '*' and tyw)):
+                tyw.append(toks[j].text)     # new T[n], new T*[n]
                 j = sig(toks, j, 1)
             if j is not None and toks[j].text == '[' and tyw:
                 e = match_tok(toks, j, '[', ']')
